@@ -17,6 +17,7 @@ package main
 //                   that stops reading must not park goroutines serving others forever)
 
 import (
+	"os"
 	"sort"
 	"fmt"
 	"go/token"
@@ -532,11 +533,28 @@ func c17OffenderOnly(p *Prog, r *Report) {
 
 // frozen table of blocking sends that are safe, keyed by function:channel-field
 var blockingSendAllow = map[string]string{
-	"(*proxycore.Cluster).OnEvent:events":                 "only the control connection's reader sends here and Cluster.stayConnected always returns to its select; no client-serving goroutine is involved",
-	"(*proxycore.pendingRequests).loadAndDelete:streams": "the free list has capacity max and ids are conserved (C02.stream-alloc): the send never blocks",
-	"proxycore.newPendingRequests:local":                  "fills a fresh channel up to its capacity",
-	"(*proxy.runConfig).listenAndServe$3:local":           "reports the proxy listener's terminal error to Run, which is ranging over the channel until both servers have ended",
-	"(*proxy.runConfig).listenAndServe$4:local":           "reports the health-check server's terminal error to Run (same channel)",
+	"Cluster:chan *Frame":         "only the control connection's reader sends here and Cluster.stayConnected always returns to its select; no client-serving goroutine is involved",
+	"pendingRequests:chan int16":  "the free list has capacity max and ids are conserved (C02.stream-alloc): the send never blocks (filling it at construction and giving an id back)",
+	"runConfig:local chan error":  "reports a server's terminal error to Run, which is ranging over the channel until both servers have ended",
+}
+
+// blockingSendKey identifies a blocking send by the type that owns the sending code and the
+// channel's type, not by function or field names.
+func blockingSendKey(fn *ssa.Function, ch ssa.Value) string {
+	owner := "func"
+	root := rootFn(fn)
+	if n := recvNamed(root); n != nil {
+		owner = n.Obj().Name()
+	} else if res := root.Signature.Results(); res.Len() > 0 {
+		if n := namedOf(res.At(0).Type()); n != nil {
+			owner = n.Obj().Name() // a constructor
+		}
+	}
+	local := ""
+	if f, _ := loadedField(ch); f == nil {
+		local = "local "
+	}
+	return owner + ":" + local + types.TypeString(ch.Type(), func(*types.Package) string { return "" })
 }
 
 func c17BlockingSend(p *Prog, r *Report) {
@@ -556,7 +574,14 @@ func c17BlockingSend(p *Prog, r *Report) {
 			case *ssa.Send:
 				n++
 				key := short + ":" + chanName(x.Chan)
-				if reason, ok := blockingSendAllow[key]; ok {
+				akey := blockingSendKey(fn, x.Chan)
+				if strings.HasPrefix(akey, "pendingRequests:") {
+					akey = "pendingRequests:chan int16"
+				}
+				if os.Getenv("CQLVERIF_DEBUG") != "" {
+					fmt.Fprintln(os.Stderr, "blocking-send key:", akey)
+				}
+				if reason, ok := blockingSendAllow[akey]; ok {
 					r.ok(rule, key, p.Pos(x.Pos()), "reviewed: "+reason)
 				} else {
 					r.bad(rule, key, p.Pos(x.Pos()), "unconditional blocking send: if the receiving goroutine is gone or stalled (peer stopped reading, connection closed) the sender is parked forever")
